@@ -143,6 +143,14 @@ def inferType (Γ : Ctx) (Δ : Option Ctx) : IR → Option HType
       let u' ← inferType ((v, t) :: (acc, u) :: Γ) Δ b
       if u' = u then some u else none
     | _ => none
+  | .streamScan acc v a z b => do
+    let s ← inferType Γ Δ a
+    let u ← inferType Γ Δ z
+    match s with
+    | .stream t => do
+      let u' ← inferType ((v, t) :: (acc, u) :: Γ) Δ b
+      if u' = u then some (.stream u) else none
+    | _ => none
   | .snil => some (.struct .nil)
   | .scons f e rest => do
     let t ← inferType Γ Δ e
